@@ -327,7 +327,7 @@ func drawSyev(t *rapid.T) kase {
 }
 
 func TestSyev(t *testing.T) {
-	vk.Run(t, "syev", vk.Opts{Quick: 400, Thorough: 12000}, drawSyev, checkSyev)
+	vk.Run(t, "syev", vk.Opts{Quick: 1200, Thorough: 12000}, drawSyev, checkSyev)
 }
 
 // ---- Dsytrd / Dsytd2 / Dorgtr -------------------------------------------------
@@ -473,7 +473,7 @@ func drawSytrd(t *rapid.T) kase {
 	c.J[1] = rapid.IntRange(0, 1).Draw(t, "uplo")
 	c.N = dimN(t, "n", 40, dimBoundaries...)
 	if rapid.IntRange(0, 7).Draw(t, "big") == 0 {
-		c.N = rapid.IntRange(41, 150).Draw(t, "nbig") // blocked path needs n > nx = 128
+		c.N = rapid.SampledFrom([]int{64, 100, 128, 129, 130, 140, 150, 161}).Draw(t, "nbig") // blocked path needs n > nx = 128
 	}
 	c.Pad = drawPads(t, 2)
 	c.LW = drawLW(t)
@@ -484,7 +484,7 @@ func drawSytrd(t *rapid.T) kase {
 }
 
 func TestSytrd(t *testing.T) {
-	vk.Run(t, "sytrd", vk.Opts{Quick: 300, Thorough: 9000}, drawSytrd, checkSytrd)
+	vk.Run(t, "sytrd", vk.Opts{Quick: 900, Thorough: 9000}, drawSytrd, checkSytrd)
 }
 
 // ---- Dsteqr / Dsterf ----------------------------------------------------------
@@ -610,7 +610,7 @@ func drawSteqr(t *rapid.T) kase {
 }
 
 func TestSteqr(t *testing.T) {
-	vk.Run(t, "steqr", vk.Opts{Quick: 400, Thorough: 12000}, drawSteqr, checkSteqr)
+	vk.Run(t, "steqr", vk.Opts{Quick: 1200, Thorough: 12000}, drawSteqr, checkSteqr)
 }
 
 // ---- Dlae2 / Dlaev2 -------------------------------------------------------------
